@@ -19,7 +19,7 @@ import time
 
 
 class LineScheduler:
-    def __init__(self, files: tuple[str, ...], stall_s: float = 0.05, hang_s: float = 2.0):
+    def __init__(self, files: tuple[str, ...], stall_s: float = 0.02, hang_s: float = 2.0):
         self.files = files
         self.stall_s = stall_s
         self.hang_s = hang_s
